@@ -184,20 +184,24 @@ fn run_sweep(ctx: &Ctx, s: &Sweep) -> (String, Option<(String, String)>) {
     let (_, hkeys) = ch.params.holder_commitment(n, &holder_point, &ch.initial_content());
     let (_, ckeys) = ch.params.counterparty_commitment(n, &cp_point, &ch.initial_content());
     let features = ch.setup.features();
+    let swept_rs;
     let o = match s.kind {
         SweepK::Delayed => {
             let rs = get_revokeable_redeemscript(&hkeys.revocation_key, ch.setup.counterparty_selected_contest_delay, &hkeys.broadcaster_delayed_payment_key);
+            swept_rs = rs.clone();
             let (tx2, wp2) = (tx.clone(), wp.clone());
             w.with_chan(DBID, move |c| c.sign_delayed_sweep(&tx2, idx, n, &rs, AMOUNT, &wp2))
         }
         SweepK::CpHtlcOffered | SweepK::CpHtlcReceived => {
             let htlc = HTLCOutputInCommitment { offered: s.kind == SweepK::CpHtlcOffered, amount_msat: AMOUNT * 1000, cltv_expiry: CLTV, payment_hash: pay_hash(1), transaction_output_index: Some(0) };
             let rs = get_htlc_redeemscript(&htlc, &features, &ckeys);
+            swept_rs = rs.clone();
             let (tx2, wp2) = (tx.clone(), wp.clone());
             w.with_chan(DBID, move |c| c.sign_counterparty_htlc_sweep(&tx2, idx, &cp_point, &rs, AMOUNT, &wp2))
         }
         SweepK::Justice => {
             let rs = get_revokeable_redeemscript(&ckeys.revocation_key, ch.setup.holder_selected_contest_delay, &ckeys.broadcaster_delayed_payment_key);
+            swept_rs = rs.clone();
             let secret = ch.cp.secret(n);
             let (tx2, wp2) = (tx.clone(), wp.clone());
             w.with_chan(DBID, move |c| c.sign_justice_sweep(&tx2, idx, &secret, &rs, AMOUNT, &wp2))
@@ -205,11 +209,31 @@ fn run_sweep(ctx: &Ctx, s: &Sweep) -> (String, Option<(String, String)>) {
     };
     let refr = sweep_reference(s, ch.setup.counterparty_selected_contest_delay);
     match o {
-        Outcome::Ok(_) => {
-            let vio = match &refr {
+        Outcome::Ok(sig) => {
+            let mut vio = match &refr {
                 Err(wy) => Some((format!("C09:sweep:{:?}:signed-although:{}", s.kind, wy), format!("{:?}: the sweep was signed although {}", s, wy))),
                 Ok(()) => None,
             };
+            // what was validated is the whole presented transaction: the signature has to commit
+            // to all of it (SIGHASH_ALL over the swept output's script and value) under one of the
+            // channel's keys for that commitment
+            if vio.is_none() {
+                let sh = SighashCache::new(&tx).p2wsh_signature_hash(idx, &swept_rs, Amount::from_sat(AMOUNT), EcdsaSighashType::All).unwrap();
+                let msg = lightning_signer::bitcoin::secp256k1::Message::from_digest(sh.to_byte_array());
+                let mut keys = vec![];
+                for k in [&hkeys, &ckeys] {
+                    keys.push(k.revocation_key.to_public_key());
+                    keys.push(k.broadcaster_htlc_key.to_public_key());
+                    keys.push(k.countersignatory_htlc_key.to_public_key());
+                    keys.push(k.broadcaster_delayed_payment_key.to_public_key());
+                }
+                if !keys.iter().any(|k| verify_sig(&msg, &sig, k)) {
+                    vio = Some((
+                        format!("C09:sweep:{:?}:signature-does-not-commit-to-the-validated-transaction", s.kind),
+                        format!("{:?}: the returned signature does not verify as SIGHASH_ALL over the presented sweep under any of the channel's keys for that commitment", s),
+                    ));
+                }
+            }
             ("accepted".into(), vio)
         }
         Outcome::Err(e) => (format!("refused:{}|{}", e, refr.err().unwrap_or_default()), None),
